@@ -11,7 +11,21 @@ NA_FINAL = {
     "C19": "fused operators are onnxruntime com.microsoft contrib kernels (compiled code) over erf/tanh/exp/softmax: not encodable without re-specifying ORT (DESIGN.md §5 C19)",
 }
 
+S_NOTE = ("Trusted: symonnx operator semantics (mine; validated at every run against the ONNX backend node-test data through the "
+          "same rule code, concretely and with symbolic inputs), z3 5.1; floats are reals and int64 unbounded ints (NaN/inf/overflow/"
+          "rounding outside the claim); loops unrolled with an unwinding assumption; transcendental ops uninterpreted. Every sat is "
+          "replayed on onnxruntime (optimisations off) / the real eager evaluator before it is reported.")
+
 CLAIMED = {
+    "C01": dict(
+        category="translation_validation", design_ref="§5 C01", engine="S",
+        text="For each program (hand-written core exhausting the interaction shapes + seeded random typed grammar) and input-shape assignment, the real eager path is executed over symbolic tensors (forking on tensor->bool/int), the protos from the real converter are interpreted symbolically, and z3 decides per eager path that outputs agree for ALL input values; both the to_model_proto and the to_function_proto leg. Structure enumerated, values decided.",
+        note=S_NOTE, technique="translation validation: symbolic ONNX semantics + forking symbolic eager execution, z3 equivalence per path, ORT/eager replay"),
+    "C20": dict(
+        category="other", design_ref="§5 C20", engine="X",
+        text="CrossHair/z3 symbolic execution of the real save_model_with_external_data with ir.save stubbed: which initializers are uninitialised, path shape, verbose/tqdm and whether the save faults are solver variables; refusal-before-write, single call with <basename>.data, exception propagation and object identity of the initializers are decided over all combinations. Narrow: what onnx_ir.save does per file-system call is outside the claim.",
+        note="Trusted: CrossHair models; ir.save replaced by a recording stub (onnx_ir is an installed package, I/O not encodable); <=3 initializers, 8 path shapes.",
+        technique="symbolic execution (CrossHair+z3) of the real function with a faulting stub for ir.save, vacuity twins"),
     "C11": dict(
         category="other", design_ref="§5 C11",
         text="CrossHair/z3 symbolic execution of the real Tensor.__getitem__ and of the subgraphs the real converter emits per index form: for ALL dims>=0, start/stop in Z u {None}, integer and scalar-tensor indices (unbounded ints) the ONNX-spec meaning equals NumPy's, or is an error; forms, rank<=3 and step tables are enumerated. Bounded in structure, unbounded in values.",
